@@ -666,6 +666,18 @@ impl Engine {
         if !ok {
             return false; // the primary violation is the outcome; effects of a wrong outcome would only be cascades
         }
+        // "page already mapped" names the frame of the refused request - in all three implementations
+        if out.oc == Oc::AlreadyMapped {
+            let want = match act {
+                Act::Map { frame, .. } => Some(self.al.frames[sz as usize][*frame as usize]),
+                Act::Ident { .. } => Some(va),
+                _ => None,
+            };
+            if want.is_some() && out.frame != want {
+                self.viol("C02", &format!("{}|walk={}|got=AlreadyMapped|the-frame-reported-with-the-error-differs-between-implementations-(not-the-frame-of-the-request)", op, sit), &hist, Some(ai), &format!("{:x?} expected {:x?}", out.frame, want));
+                ok = false;
+            }
+        }
         // ---- C09: allocation requests
         let is_map = matches!(act, Act::Map { .. } | Act::Ident { .. });
         if is_map {
